@@ -172,6 +172,9 @@ class Program:
             self._load_tree('scripts', pkg=None)
             self._load_notebooks('notebooks')
         self._resolve_bases()
+        if os.environ.get('AEIC_VERIF_NO_ALPHA') != '1':
+            from . import alpha
+            self.alpha_renamed = getattr(self, 'alpha_renamed', 0) + alpha.reshape_calls(self)
 
     # -- loading ---------------------------------------------------------
     def _load_tree(self, sub: str, pkg: str | None = 'AEIC'):
